@@ -23,6 +23,7 @@ import itertools
 import json
 import math
 import random
+import time
 import zlib
 from fractions import Fraction
 
@@ -163,11 +164,6 @@ def opts_of(kind, oi):
 def grader_class(kind):
     import mitxgraders
     return getattr(mitxgraders, KINDS[kind]['cls'])
-
-
-def value_class_ok_for_opts(kind, oi, k):
-    """ordered SingleListGrader: listed order matters, so only the in-order spellings are equivalent"""
-    return True
 
 
 def alt_spellings(kind, oi, k):
@@ -922,6 +918,26 @@ def empty_cases(res, stats):
     return terms
 
 
+def exhaustive_small(max_n, res, rec, stats, emit_every):
+    """every ordered tuple of 1..max_n alternatives over 2 values x 3 credits x 3 messages (StringGrader), inputs matching
+    the first value / the second / nothing; judged by construction (direct oracle); all listing orders occur by enumeration"""
+    opts = [(k, c, m) for k in (0, 1) for c in (0, 0.5, 1) for m in ('', 'a', 'bb')]
+    ins = [{'text': 'cat', 'cls': 0}, {'text': 'dog', 'cls': 1}, {'text': 'zebra', 'cls': None}]
+    terms, count = [], 0
+    for n in range(1, max_n + 1):
+        for combo in itertools.product(opts, repeat=n):
+            case = {'kind': 'String', 'oi': 0, 'wrong_msg': 'w', 'single': False, 'inputs': ins, 'alts': [
+                {'form': 'dict', 'tuple': False, 'classes': [k], 'values': [KINDS['String']['universe'][k]['alts'][0]],
+                 'credit': c, 'msg': m, 'ok': None} for k, c, m in combo]}
+            t = check_top(case, tuple(range(n)), {}, {}, True, res, rec, count % emit_every == 0, stats)
+            if t:
+                terms.append(t)
+            count += 1
+    stats['exhaustive_small_scope_configs'] = count
+    stats['exhaustive_small_scope_max_alternatives'] = max_n
+    return terms
+
+
 # ------------------------------------------------------------------------------------------------
 def new_stats():
     import collections
@@ -954,7 +970,7 @@ def run(ctx):
         if escalate:
             plan = {k: int(v * 1.6) for k, v in plan.items()}
         if thorough:
-            plan = {'String': 900, 'Formula': 110, 'Numerical': 160, 'Matrix': 90, 'SingleList': 220}
+            plan = {'String': 700, 'Formula': 90, 'Numerical': 130, 'Matrix': 70, 'SingleList': 180}
         perm_budget = 24 if not thorough else 720
         cases = [(c, True) for c in corpus_cases()]
         for kind, n in plan.items():
@@ -962,6 +978,7 @@ def run(ctx):
                 cases.append((gen_case(rng, kind, ctx['tier']), False))
         terms += invalid_config_cases(rng, res, stats)
         terms += empty_cases(res, stats)
+        terms += exhaustive_small(3 if thorough else 2, res, rec, stats, 1 if not thorough else 2)
         big720 = 0
         for ci, (case, is_corpus) in enumerate(cases):
             n = len(case['alts'])
@@ -1010,6 +1027,9 @@ def run(ctx):
     stats['sub_terms_total'] = len(sub_terms)
     stats['sub_terms_distinct'] = len(uniq)
     terms += uniq[:cap]
+    res.notes.append('exhaustive small scope: every ordered tuple of 1..%d alternatives over 2 expect values x credits {0, 1/2, 1} x '
+                     'messages of length 0/1/2 (%d StringGrader configurations x 3 inputs), judged by construction'
+                     % (stats['exhaustive_small_scope_max_alternatives'], stats['exhaustive_small_scope_configs']))
     res.distribution = {k: v for k, v in sorted(stats.items())}
     res.distribution['coq_cases'] = len(terms)
     if terms:
@@ -1018,15 +1038,42 @@ def run(ctx):
         c = cases[0][0]
         res.samples.append({'case': {'kind': c['kind'], 'alternatives': [build_alt(a) for a in c['alts']], 'wrong_msg': c['wrong_msg'],
                                      'inputs': [i['text'] for i in c['inputs']]}})
-    # shards of mixed cases, at most ~1.2 MB of terms each (elaboration time and memory of coqc grow with the file)
+    # shards of mixed cases, at most ~0.6 MB of terms each (elaboration time and memory of coqc grow with the file)
     random.Random(seed).shuffle(terms)
     total_bytes = sum(len(t) for t in terms) or 1
-    shard = max(50, min(-(-len(terms) // 16), int(len(terms) * 1.2e6 / total_bytes) or 1))
+    shard = max(50, min(-(-len(terms) // 16), int(len(terms) * 0.6e6 / total_bytes) or 1))
     res.distribution['coq_case_bytes'] = total_bytes
     res.distribution['coq_shard_size'] = shard
-    n, failing, errors = core.eval_agreement('c08', HEADER + POOL.header(), 'agree', terms, shard=shard, case_type='case')
+    header = HEADER + POOL.header()
+    n, failing, errors = core.eval_agreement('c08', header, 'agree', terms, shard=shard, case_type='case')
+    # a case file whose coqc was killed (memory pressure on a shared machine: exit 137, no output) says nothing about
+    # agreement: re-evaluate those shards, split and one after the other; a genuine Coq error is kept as an error
+    pending = []
+    for name, out in errors:
+        if 'Error' in out:
+            res.corr_errors.append((name, out))
+        else:
+            pending.append((int(name.rsplit('_', 1)[1]) * shard, terms[int(name.rsplit('_', 1)[1]) * shard:][:shard], out))
+    attempt = 0
+    while pending and attempt < 4:
+        attempt += 1
+        time.sleep(3 * attempt)
+        nxt = []
+        for base, chunk, _ in pending:
+            half = max(1, -(-len(chunk) // 2))
+            _, f2, e2 = core.eval_agreement('c08r%d_%d' % (attempt, base), header, 'agree', chunk, shard=half, case_type='case')
+            failing += [base + i for i in f2]
+            for name, out in e2:
+                k = int(name.rsplit('_', 1)[1])
+                if 'Error' in out:
+                    res.corr_errors.append((name, out))
+                else:
+                    nxt.append((base + k * half, chunk[k * half:][:half], out))
+        pending = nxt
+    res.distribution['coq_shards_reevaluated_after_kill'] = attempt
+    for base, chunk, out in pending:
+        res.corr_errors.append(('c08 cases %d..%d' % (base, base + len(chunk)), out))
     res.programs += n
-    res.corr_errors += errors
     for i in failing:
         res.disagreements.append({'kind': 'check-trace', 'term': terms[i][:3000]})
     return res
@@ -1074,8 +1121,12 @@ def replay(w):
             answers = build_answers(case, tuple(w['perm']), w.get('shuffles') or {})
         except Exception:       # noqa
             answers = None
-        return True, ('%s(answers=%r, wrong_msg=%r, **%r) on input %r: %s' %
-                      (KINDS[case['kind']]['cls'], answers, case['wrong_msg'], KINDS[case['kind']]['opts'][case['oi']],
+        where = ''
+        if kind != 'top':
+            where = (' used as subgrader (%s; alternatives listed in the orders %r; inputs %r)'
+                     % (kind, w.get('perms'), [i['text'] for i in (w.get('inputs_used') or [])]))
+        return True, ('%s(answers=%r, wrong_msg=%r, **%r)%s on input %r: %s' %
+                      (KINDS[case['kind']]['cls'], answers, case['wrong_msg'], KINDS[case['kind']]['opts'][case['oi']], where,
                        (w.get('input') or {}).get('text'), hits[0]['what']))
     return False, 'the witnessed case satisfies the property on the current tree'
 
